@@ -226,10 +226,12 @@ pub fn run_script(check: &'static dyn Check, script: Value, keep_full_log: bool)
             }
         }
         _ => Outcome {
-            check: id,
+            check: id.clone(),
             seed,
             ok: false,
-            clause: Some("harness.panic".to_string()),
+            // a panic raised by the code under test on the simulation thread itself (a codec or store function called
+            // directly by the check) is that code's failure, not the harness's
+            clause: Some(if panics.iter().any(|p| p.contains("/repo/src/")) && !panics.iter().any(|p| p.contains("rnsim/src/") || p.contains("simtokio/src/")) { format!("{}.product_code_panicked", id) } else { "harness.panic".to_string() }),
             msg: Some(format!("simulation thread panicked: {}", panics.join(" | "))),
             ev_hash: String::new(),
             ev_count: 0,
